@@ -27,10 +27,15 @@ matrix, strongly connected in general); `cost D R := Σ i j, D i j * R i j`.
   `latmio_und_connected` (`Model/RewirePre.lean`, driver `Main/RewirePre.lean`) answers
   `BCTParamError` exactly on asymmetric or disconnected input.
 
-Stated domain assumptions (restrictions of the property's quantifier, see notes/C11.md): all
-connectivity theorems assume an **empty diagonal** (BCT convention; the four-distinct-nodes test of
-the routines does not exclude `a = b` for a self-loop), and the undirected lattice-cost theorems
-assume a **symmetric `D`** (a distance-to-diagonal matrix is symmetric).
+Hypotheses stronger than the property's quantifier, and why they stay.  All connectivity theorems
+assume an **empty diagonal** and the undirected lattice-cost theorems a **symmetric `D`**.  The
+property text has neither restriction, and on the complement the statements are *false* for the model
+and for the code alike: `runBudget_connected_dir_selfloop_witness`,
+`runBudget_connected_und_selfloop_witness`, `runBudget_cost_noninc_asymD_witness`,
+`lattice_step_cost_und_asymD_witness` (end of this file) exhibit concrete runs.  The real routines
+fail on the same inputs; the check generates them and reports the open known findings
+`C11-selfloops-*`, `C11-asymD-cost-*` (`known_findings.d/C11.json`).  The hypotheses are exactly the
+complement of those findings.
 -/
 open Relation
 
@@ -406,7 +411,7 @@ example : undConnOk ring6 0 1 3 4 = false := by decide
 
 /-- undirected 5-ring -/
 def ring5 : AMat Int 5 := AMat.ofFn fun i j => if (i.val + 1) % 5 = j.val ∨ (j.val + 1) % 5 = i.val then 1 else 0
-def cfgUC : Cfg 5 := { und := true, conn := true, lat := none, mask := none, src := .tril, attDen := some 10 }
+def cfgUC : Cfg 5 := { und := true, conn := true, lat := none, mask := none, src := .tril, attDen := some 20 }
 example : Symm ring5 ∧ EmptyDiag ring5 := by unfold Symm EmptyDiag; decide
 theorem ring5_conn : Conn (adj ring5) := by
   have e : ∀ i j : Fin 5, decide (ring5.toFun i j ≠ 0) = true → adj ring5 i j :=
@@ -511,5 +516,103 @@ example : RewirePre.precheck ring5 = .ok () ∧
 -- bct.randomize_graph_partial_und(ring5, maskB, 2, seed=53): two swaps
 example : (runBudget cfgPM ring5 2 [1, 3, 306117710749834, 4, 0, 4079479849701554]).toOption.map (fun r => r.2.1) = some 2 := by
   decide
+
+/-! ### the hypotheses `EmptyDiag` and `Symm D` are forced: witnesses on the model
+
+The model mirrors the code (the correspondence check replays these very runs against bct).  With a
+self-loop in the input the `_connected` configurations do disconnect, and with an asymmetric `D` the
+undirected latticiser does increase `Σ D∘R`: the full statements (without the hypothesis) are false.
+These are the open known findings `C11-selfloops-*`, `C11-asymD-cost` of `known_findings.d/C11.json`. -/
+
+/-- strongly connected digraph 0→1, 1→2, 1→4, 2→4, 3→0, 4→3 with a self-loop at node 4 -/
+def loopD : AMat Int 5 := AMat.ofFn fun i j =>
+  (#v[#v[0, 1, 0, 0, 0], #v[0, 0, 1, 0, 1], #v[0, 0, 0, 0, 1], #v[1, 0, 0, 0, 0], #v[0, 0, 0, 1, 1]] : AMat Int 5)[i][j]
+/-- what `randmio_dir_connected(loopD, 1, seed=…)` and the model return: {2,3,4} can no longer reach 0 -/
+def loopD' : AMat Int 5 := AMat.ofFn fun i j =>
+  (#v[#v[0, 1, 0, 0, 0], #v[1, 0, 0, 0, 1], #v[0, 0, 0, 0, 1], #v[0, 0, 1, 0, 0], #v[0, 0, 0, 1, 1]] : AMat Int 5)[i][j]
+
+/-- **`runBudget_connected_dir` is false without `EmptyDiag`**: a strongly connected input with one
+self-loop, a draw list, and a successful run of the directed `_connected` configuration whose output
+is not strongly connected. -/
+theorem runBudget_connected_dir_selfloop_witness :
+    ∃ (R R' : AMat Int 5) (ds : List ℕ), cfgDC.und = false ∧ cfgDC.conn = true ∧ Conn (adj R) ∧ ¬ EmptyDiag R ∧
+      (runBudget cfgDC R 1 ds).toOption.map (fun r => r.1) = some R' ∧ ¬ Conn (adj R') := by
+  refine ⟨loopD, loopD', [5, 4, 5, 5, 5, 1, 4, 5, 1, 1, 4, 2, 4, 1, 5, 6, 3, 4, 3, 0, 5, 0, 0, 5, 4, 2], rfl, rfl, ?_, ?_, ?_, ?_⟩
+  · -- Hamiltonian cycle 0 → 1 → 2 → 4 → 3 → 0
+    exact conn_of_walks loopD 0
+      (fun v => (#v[[], [1], [1, 2], [1, 2, 4, 3], [1, 2, 4]] : Vector (List (Fin 5)) 5)[v])
+      (fun v => (#v[[], [2, 4, 3, 0], [4, 3, 0], [0], [3, 0]] : Vector (List (Fin 5)) 5)[v]) (by decide +kernel)
+  · intro h; exact absurd (h 4) (by decide +kernel)
+  · decide +kernel
+  · exact not_conn_of_closed loopD' (fun v => decide (2 ≤ v.val)) 2 0 rfl rfl (by decide +kernel)
+
+/-- connected undirected graph 0–2, 1–2, 1–4, 2–4, 3–4 with a self-loop at node 0 -/
+def loopU : AMat Int 5 := AMat.ofFn fun i j =>
+  (#v[#v[1, 0, 1, 0, 0], #v[0, 0, 1, 0, 1], #v[1, 1, 0, 0, 1], #v[0, 0, 0, 0, 1], #v[0, 1, 1, 1, 0]] : AMat Int 5)[i][j]
+/-- what `randmio_und_connected(loopU, 1, seed=…)` and the model return: row 3 is empty, cell (0,3) is not -/
+def loopU' : AMat Int 5 := AMat.ofFn fun i j =>
+  (#v[#v[0, 0, 1, 1, 1], #v[0, 0, 1, 0, 1], #v[1, 1, 0, 0, 1], #v[0, 0, 0, 0, 0], #v[1, 1, 1, 0, 0]] : AMat Int 5)[i][j]
+
+/-- **`runBudget_connected_und` (and C01's symmetry clause) is false without `EmptyDiag`**: a symmetric
+connected input with one self-loop and a successful run of the undirected `_connected` configuration
+whose output is neither connected nor symmetric. -/
+theorem runBudget_connected_und_selfloop_witness :
+    ∃ (R R' : AMat Int 5) (ds : List ℕ), cfgUC.und = true ∧ cfgUC.conn = true ∧ cfgUC.src ≠ .all ∧ Symm R ∧
+      Conn (adj R) ∧ ¬ EmptyDiag R ∧
+      (runBudget cfgUC R 1 ds).toOption.map (fun r => r.1) = some R' ∧ ¬ Conn (adj R') ∧ ¬ Symm R' := by
+  refine ⟨loopU, loopU', [5, 0, 6357975758511176, 5, 2, 1918960738989114, 4, 2, 1, 2, 3, 1, 8070328811166171, 5, 4, 0, 3,
+    2504683651405730, 4, 5, 0, 1, 1, 0, 2, 4, 5, 5, 0, 1613340648502854, 2, 0, 3040319811848370, 1, 5, 3243370458342647, 3, 0,
+    5, 1, 2692120735517778, 0, 2, 1419088721007467, 2, 1, 4, 5, 1, 1, 0, 1, 5, 3892662930273368, 4, 3, 1, 3, 2, 3,
+    536933896608603, 4, 3, 0, 2, 4968356665924228], rfl, rfl, by decide, ?_, ?_, ?_, ?_, ?_, ?_⟩
+  · unfold Symm; decide +kernel
+  · exact conn_of_walks loopU 2
+      (fun v => (#v[[0], [1], [], [4, 3], [4]] : Vector (List (Fin 5)) 5)[v])
+      (fun v => (#v[[2], [2], [], [4, 2], [2]] : Vector (List (Fin 5)) 5)[v]) (by decide +kernel)
+  · intro h; exact absurd (h 0) (by decide +kernel)
+  · decide +kernel
+  · exact not_conn_of_closed loopU' (fun v => decide (v.val = 3)) 3 0 rfl rfl (by decide +kernel)
+  · intro h; exact absurd (h 0 3) (by decide +kernel)
+
+/-- path 2–1–3–0 (the matrix `latmio_und` works on after its node permutation) -/
+def pathP : AMat Int 4 := AMat.ofFn fun i j =>
+  (#v[#v[0, 0, 0, 1], #v[0, 0, 1, 1], #v[0, 1, 0, 0], #v[1, 1, 0, 0]] : AMat Int 4)[i][j]
+def pathP' : AMat Int 4 := AMat.ofFn fun i j =>
+  (#v[#v[0, 1, 0, 0], #v[1, 0, 0, 1], #v[0, 0, 0, 1], #v[0, 1, 1, 0]] : AMat Int 4)[i][j]
+/-- a caller-supplied asymmetric `D` -/
+def asymD : AMat Int 4 := AMat.ofFn fun i j =>
+  (#v[#v[0, 1, 1, 1], #v[1, 3, 0, 2], #v[3, 0, 3, 0], #v[0, 2, 3, 1]] : AMat Int 4)[i][j]
+def cfgLUa : Cfg 4 := { und := true, conn := false, lat := some asymD, mask := none, src := .tril, attDen := some 6 }
+
+/-- **`runBudget_cost_noninc` is false without `Symm D`** for the undirected latticisers: symmetric
+empty-diagonal input, asymmetric `D`, a successful run, and `Σ D∘R` grows from 5 to 9. -/
+theorem runBudget_cost_noninc_asymD_witness :
+    ∃ (D R R' : AMat Int 4) (ds : List ℕ), cfgLUa.lat = some D ∧ cfgLUa.und = true ∧ ¬ Symm D ∧ Symm R ∧ EmptyDiag R ∧
+      (runBudget cfgLUa R 1 ds).toOption.map (fun r => r.1) = some R' ∧ cost D R < cost D R' := by
+  refine ⟨asymD, pathP, pathP', [0, 1, 4916389211272884, 1, 0, 4419782308559870, 1, 0, 941162355823523], rfl, rfl, ?_, ?_, ?_, ?_, ?_⟩
+  · intro h; exact absurd (h 0 2) (by decide +kernel)
+  · unfold Symm; decide +kernel
+  · unfold EmptyDiag; decide +kernel
+  · decide +kernel
+  · have h1 : cost asymD pathP = 5 := by
+      simp only [cost, costF, Fin.sum_univ_four]; decide +kernel
+    have h2 : cost asymD pathP' = 9 := by
+      simp only [cost, costF, Fin.sum_univ_four]; decide +kernel
+    rw [h1, h2]; decide
+
+/-- one accepted swap already shows it: the lattice condition holds, yet the eight assignments raise the cost -/
+theorem lattice_step_cost_und_asymD_witness :
+    ∃ (D R : AMat Int 4) (a b c d : Fin 4), Symm R ∧ ¬ Symm D ∧ R.toFun a d = 0 ∧ R.toFun c b = 0 ∧
+      latOk D R a b c d = true ∧ cost D R < cost D (swapUnd R a b c d) := by
+  refine ⟨asymD, pathP, 0, 3, 2, 1, ?_, ?_, ?_, ?_, ?_, ?_⟩
+  · unfold Symm; decide +kernel
+  · intro h; exact absurd (h 0 2) (by decide +kernel)
+  · decide +kernel
+  · decide +kernel
+  · decide +kernel
+  · have h1 : cost asymD pathP = 5 := by
+      simp only [cost, costF, Fin.sum_univ_four]; decide +kernel
+    have h2 : cost asymD (swapUnd pathP 0 3 2 1) = 9 := by
+      simp only [cost, costF, Fin.sum_univ_four]; decide +kernel
+    rw [h1, h2]; decide
 
 end Bct.C11
